@@ -200,7 +200,7 @@ Proof. intros. unfold set_field. rewrite H. auto. Qed.
 
 Lemma add_field_ext : forall nf1 nf2 cf1 cf2 std ped me barth ents name k,
   nf1 name = nf2 name -> nf1 (parent_part name) = nf2 (parent_part name) ->
-  (forall i, k = KBit i -> cf1 i = cf2 i) ->
+  (forall i, (k = KBit i \/ exists tb, k = KLinterp i tb) -> cf1 i = cf2 i) ->
   add_field nf1 cf1 std ped me barth ents name k = add_field nf2 cf2 std ped me barth ents name k.
 Proof.
   intros. unfold add_field.
@@ -212,11 +212,14 @@ Proof.
   assert (Hn : Pp = None -> nm = name).
   { intros; subst. destruct barth. eapply check_parent_none; eauto. inversion C; auto. }
   destruct Pp as [Pe|].
-  - destruct k; auto. rewrite (H1 input); auto.
+  - destruct k; auto.
+    + rewrite (H1 input); auto.
+    + rewrite (H1 input); eauto.
   - rewrite (Hn eq_refl). destruct (str_eqb name sINDEX || ped && (std <? 6) && str_eqb name sFILEFRAM); auto.
     destruct k.
     + unfold set_field. rewrite H; auto.
     + unfold set_field. rewrite H; auto. rewrite (H1 input); auto.
+    + unfold set_field. rewrite H; auto. rewrite (H1 input); eauto.
 Qed.
 
 Lemma add_alias_ext : forall nf1 nf2 cf1 cf2 std ped me ents name target,
@@ -265,6 +268,9 @@ Proof.
   - destruct Pp; try discriminate.
     apply bind_ok in H. destruct H as (field & _ & H).
     destruct (if legacy_type then ped && negb (std <? 8) else ped && (std <? 5)); try discriminate.
+    apply bind_ok in H. destruct H as (e' & I & H). inversion H; subst.
+    apply insert_entry_shape in I. eexists; split; [exact I | reflexivity].
+  - apply bind_ok in H. destruct H as (field & _ & H).
     apply bind_ok in H. destruct H as (e' & I & H). inversion H; subst.
     apply insert_entry_shape in I. eexists; split; [exact I | reflexivity].
   - apply bind_ok in H. destruct H as (field & _ & H).
@@ -356,7 +362,7 @@ Section Concrete2.
       unfold name_ok in O0. apply andb_true_iff in O0. destruct O0 as [O1 O2].
       rewrite HI, Rent, Rstd, Rped, Gbarth. rewrite (pvers_ge_sv _ (s_ver b)); auto.
       rewrite (add_field_ext (i_namef P a) (s_namef b) (i_codef a) (s_codef b)); auto.
-      2:{ intros; subst. apply HC; auto. }
+      2:{ intros i0 [Hk|[tb Hk]]; subst; apply HC; auto. }
       destruct (add_field (s_namef b) (s_codef b) (sv_std (s_ver b)) (sv_strict (s_ver b)) (s_index b)
                           (sv_ge (s_ver b) 7) (s_ent b) name k) as [[ents raw]| |] eqn:Ha; simpl; auto.
       eexists; split; [reflexivity|]. unfold Rel; simpl; repeat split; auto.
